@@ -518,19 +518,48 @@ fn smoother_sweep(len: usize) -> (u64, Option<String>) {
     (n, bad)
 }
 
+impl MA {
+    /// Keep only the start states whose kind is listed (the soft-reset state lives in a world with
+    /// socket faults, where every step pays for extra barrier round trips).
+    fn only(mut self, kinds: &[u8]) -> Self {
+        self.inits.retain(|i| kinds.contains(&i.1));
+        self.name = format!("{} starts={:?}", self.name, kinds);
+        self
+    }
+}
+
+/// Default symbol cycle "housekeeping pass, echo on link 0, echo on link 1": the links stay alive, so a long
+/// path is a long stretch of keepalive cadence (an all-housekeeping default lets every link time out after
+/// 5 s and spends the rest of the path re-creating sockets).
+fn alive_default(m: &MA) -> Arc<dyn Fn(usize) -> usize + Send + Sync> {
+    let find = |ev: Ev| m.events.iter().position(|e| *e == ev).unwrap_or(0);
+    let cyc = [find(Ev::Hk(1000)), find(Ev::Echo(0, 20)), find(Ev::Echo(1, 20))];
+    Arc::new(move |pos| cyc[pos % 3])
+}
+
 fn models_a(tier: Tier) -> Vec<(String, Arc<MA>, Vec<Plan>)> {
     let mut out = Vec::new();
     if tier.is_quick() {
         let m = Arc::new(MA::new(2, true));
         out.push((m.name.clone(), m, vec![Plan::Full { depth: 5 }]));
         let m = Arc::new(MA::new(2, false));
-        out.push((m.name.clone(), m, vec![Plan::Full { depth: 3 }, Plan::Dev { k: 1, depth: 40, default: Arc::new(|_| 0) }, Plan::Dev { k: 2, depth: 12, default: Arc::new(|_| 0) }]));
+        let alive = alive_default(&m);
+        out.push((
+            m.name.clone(),
+            m,
+            vec![Plan::Full { depth: 3 }, Plan::Dev { k: 1, depth: 40, default: Arc::new(|_| 0) }, Plan::Dev { k: 2, depth: 12, default: Arc::new(|_| 0) }, Plan::Dev { k: 2, depth: 24, default: alive }],
+        ));
     } else {
-        let m = Arc::new(MA::new(2, true));
+        let m = Arc::new(MA::new(2, true).only(&[0, 1, 2]));
         out.push((m.name.clone(), m, vec![Plan::Full { depth: 7 }]));
-        let m = Arc::new(MA::new(2, false));
-        out.push((m.name.clone(), m, vec![Plan::Full { depth: 5 }, Plan::Dev { k: 2, depth: 90, default: Arc::new(|_| 0) }]));
-        let m = Arc::new(MA::new(4, false));
+        let m = Arc::new(MA::new(2, true).only(&[3]));
+        out.push((m.name.clone(), m, vec![Plan::Full { depth: 5 }]));
+        let m = Arc::new(MA::new(2, false).only(&[0, 1, 2]));
+        let alive = alive_default(&m);
+        out.push((m.name.clone(), m, vec![Plan::Full { depth: 5 }, Plan::Dev { k: 2, depth: 30, default: Arc::new(|_| 0) }, Plan::Dev { k: 2, depth: 90, default: alive.clone() }, Plan::Dev { k: 3, depth: 36, default: alive }]));
+        let m = Arc::new(MA::new(2, false).only(&[3]));
+        out.push((m.name.clone(), m, vec![Plan::Full { depth: 4 }, Plan::Dev { k: 2, depth: 24, default: Arc::new(|_| 0) }]));
+        let m = Arc::new(MA::new(4, false).only(&[0, 1, 2]));
         out.push((m.name.clone(), m, vec![Plan::Full { depth: 4 }]));
     }
     out
